@@ -226,8 +226,73 @@ case("fx-div-operator-trait-unnormalised", F64RS, "    fn div(self, rhs: Self) -
 case("fx-normaliser-forgets-negative-zero", F64RS, "        } else if value.to_bits() == (-0.0f64).to_bits() {\n            0.0\n        } else {", "        } else {", M, "fail")
 case("fx-sub-adds", F64RS, "    fn sub(&self, rhs: &Self) -> Self {\n        Self::from(self.0 - rhs.0)", "    fn sub(&self, rhs: &Self) -> Self {\n        Self::from(self.0 + rhs.0)", M, "fail")
 case("fx-zero-is-negative-zero", F64RS, "    fn zero() -> Self {\n        Self(0.)", "    fn zero() -> Self {\n        Self(-0.0)", M, "fail")
-case("fx-parse-repaired", F64RS, "            _ => Self(f64::from_str(s).ok()?),", "            _ => Self::from(f64::from_str(s).ok()?),", M, "fail")  # the repair of the finding: `f64_parse_unnormalised` must be replaced by the full statement
+case("fx-parse-unnormalised-again", F64RS, "            _ => Self::from(f64::from_str(s).ok()?),", "            _ => Self(f64::from_str(s).ok()?),", M, "fail")  # the finding of round 2 (repaired in /repo, e0f38d1) seeded back
 case("fx-harmless-rewrite", F64RS, "    fn add(&self, rhs: &Self) -> Self {\n        Self::from(self.0 + rhs.0)\n    }", "    fn add(&self, rhs: &Self) -> Self {\n        // same\n        F64::from( (self.0 + rhs.0) )\n    }", M, "ok")
+
+
+# ---- front ends (sequential / multi-threaded copies) ------------------------------------------------
+M = "OxiddModel.Generated.ObFrontEnds"
+case("fe-bcdd-imp-strict-swapped-seq", BCA, "        apply_and(manager, rec, not(lhs), rhs.borrowed())\n    }",
+     "        apply_and(manager, rec, not(rhs), lhs.borrowed())\n    }", M, "fail")  # seeded: one copy only
+case("fe-bdd-apply-exists-swapped-seq", BDA,
+     "        let rec = SequentialRecursor;\n        let (lhs, rhs, vars) = (lhs.borrowed(), rhs.borrowed(), vars.borrowed());\n        apply_quant_dispatch::<_, _, { BDDOp::Or as u8 }>(manager, rec, op, lhs, rhs, vars)",
+     "        let rec = SequentialRecursor;\n        let (lhs, rhs, vars) = (lhs.borrowed(), rhs.borrowed(), vars.borrowed());\n        apply_quant_dispatch::<_, _, { BDDOp::Or as u8 }>(manager, rec, op, rhs, lhs, vars)", M, "fail")
+case("fe-zbdd-diff-swapped-seq", ZA, "        apply_diff(manager, SequentialRecursor, lhs.borrowed(), rhs.borrowed())",
+     "        apply_diff(manager, SequentialRecursor, rhs.borrowed(), lhs.borrowed())", M, "fail")
+case("fe-bdd-apply-unique-imp-swapped-mt", BDA,
+     "            let rec = ParallelRecursor::new(manager);\n            apply_quant_dispatch::<_, _, { BDDOp::Xor as u8 }>(manager, rec, op, lhs, rhs, vars)",
+     "            let rec = ParallelRecursor::new(manager);\n            let op = match op {\n                BooleanOperator::Imp => BooleanOperator::ImpStrict,\n                BooleanOperator::ImpStrict => BooleanOperator::Imp,\n                o => o,\n            };\n            apply_quant_dispatch::<_, _, { BDDOp::Xor as u8 }>(manager, rec, op, lhs, rhs, vars)", M, "fail")
+case("fe-bdd-dispatch-imp-swapped", BDA, "        Imp => apply_quant::<_, _, Q, { BDDOp::Imp as u8 }>(manager, rec, f, g, vars),",
+     "        Imp => apply_quant::<_, _, Q, { BDDOp::ImpStrict as u8 }>(manager, rec, f, g, vars),", M, "fail")
+case("fe-zbdd-mt-nand-is-and", ZA, "            let and = EdgeDropGuard::new(manager, apply_intsec(manager, rec, lhs, rhs)?);\n            apply_not(manager, rec, and.borrowed())",
+     "            apply_intsec(manager, rec, lhs, rhs)", M, "fail")
+case("fe-mt-uses-sequential-recursor", BDA, "            let (lhs, rhs) = (lhs.borrowed(), rhs.borrowed());\n            let rec = ParallelRecursor::new(manager);\n            apply_bin::<_, _, { BDDOp::And as u8 }>(manager, rec, lhs, rhs)",
+     "            let (lhs, rhs) = (lhs.borrowed(), rhs.borrowed());\n            let rec = SequentialRecursor;\n            apply_bin::<_, _, { BDDOp::And as u8 }>(manager, rec, lhs, rhs)", M, "fail")
+case("fe-tdd-xor-is-equiv", "crates/oxidd-rules-tdd/src/apply_rec.rs", "        apply_bin::<_, { TDDOp::Xor as u8 }>(manager, lhs.borrowed(), rhs.borrowed())",
+     "        apply_bin::<_, { TDDOp::Equiv as u8 }>(manager, lhs.borrowed(), rhs.borrowed())", M, "fail")
+case("fe-harmless-rewrite", BCA,
+     ["        let rec = SequentialRecursor;\n        apply_and(manager, rec, not(lhs), rhs.borrowed())\n    }", "            let (nl, rhs) = (not(lhs), rhs.borrowed());\n            apply_and(manager, ParallelRecursor::new(manager), nl, rhs)"],
+     ["        let nl = not(lhs);\n        apply_bin::<_, _, { BCDDOp::And as u8 }>(manager, SequentialRecursor, nl, rhs.borrowed())\n    }", "            let rec = ParallelRecursor::new(manager);\n            let r = rhs.borrowed();\n            apply_and(manager, rec, not(lhs), r)"], M, "ok")
+
+# ---- cache keys of BCDD / ZBDD / MTBDD / TDD ----------------------------------------------------------
+M = "OxiddModel.Generated.ObKeys2"
+MTA = "crates/oxidd-rules-mtbdd/src/apply_rec.rs"
+case("k2-zbdd-subset-key-without-var", ZA, "            .get_extended(manager, op, (&[f.borrowed()], &[var]))", "            .get_extended(manager, op, (&[f.borrowed()], &[]))", M, "fail")
+case("k2-zbdd-restrict-key-without-num-levels", ZA,
+     ["        (&[f.borrowed(), vars.borrowed()], &[num_levels]),", "        (&[f, vars], &[num_levels]),"],
+     ["        (&[f.borrowed(), vars.borrowed()], &[]),", "        (&[f, vars], &[]),"], M, "fail")  # the historic defect
+case("k2-bcdd-quant-add-shadowed-vars", BCA, "        .add(manager, operator, &[f, vars], res.borrowed());\n\n    Ok(res)\n}\n\n/// Recursively apply the binary operator `OP` to `f` and `g` while quantifying",
+     "        ;\n    let vars = vnode.child(0);\n    manager\n        .apply_cache()\n        .add(manager, operator, &[f, vars], res.borrowed());\n\n    Ok(res)\n}\n\n/// Recursively apply the binary operator `OP` to `f` and `g` while quantifying", M, "fail")  # get / add with different bindings of `vars`
+case("k2-bcdd-restrict-key-tagged", BCA, "                &[f_untagged.borrowed(), vars.borrowed()],", "                &[f.borrowed(), vars.borrowed()],", M, "fail")
+case("k2-mtbdd-ite-key-drops-h", MTA, "        &[f.borrowed(), g.borrowed(), h.borrowed()],\n    ) {", "        &[f.borrowed(), g.borrowed()],\n    ) {", M, "fail")
+case("k2-zbdd-union-cached-as-intsec", ZA, "        .get(manager, Union, &[f.borrowed(), g.borrowed()])", "        .get(manager, ZBDDOp::Intsec, &[f.borrowed(), g.borrowed()])", M, "fail")
+case("k2-harmless-rewrite", ZA,
+     ["        (&[f, vars], &[num_levels]),\n        (&[res.borrowed()], &[]),", "    if let Some(([h], [])) =\n        manager\n            .apply_cache()\n            .get_extended(manager, op, (&[f.borrowed()], &[var]))"],
+     ["        (&[f.borrowed(), vars.borrowed()], &[num_levels]),\n        (&[res.borrowed()], &[]),", "    let cached = manager.apply_cache().get_extended(manager, op, (&[f.borrowed()], &[var]));\n    if let Some(([h], [])) = cached"], M, "ok")
+
+# ---- apply_ite prologues of MTBDD / TDD / ZBDD --------------------------------------------------------
+M = "OxiddModel.Generated.ObIte2"
+TDA = "crates/oxidd-rules-tdd/src/apply_rec.rs"
+case("i2-tdd-f-eq-h-or", TDA, "        return apply_bin::<M, { TDDOp::And as u8 }>(manager, f, g);\n    }\n    let fnode", "        return apply_bin::<M, { TDDOp::Or as u8 }>(manager, f, g);\n    }\n    let fnode", M, "fail")
+case("i2-tdd-g-false-imp", TDA, "            False => return apply_bin::<M, { TDDOp::ImpStrict as u8 }>(manager, f, h),", "            False => return apply_bin::<M, { TDDOp::Imp as u8 }>(manager, f, h),", M, "fail")
+case("i2-mtbdd-zero-selects-g", MTA, "            return Ok(if t.is_zero() {\n                manager.clone_edge(&h)", "            return Ok(if t.is_zero() {\n                manager.clone_edge(&g)", M, "fail")
+case("i2-zbdd-g-empty-diff-swapped", ZA, "        return apply_diff(manager, rec, h, f);", "        return apply_diff(manager, rec, f, h);", M, "fail")
+case("i2-zbdd-tautology-level", ZA, "    let level = std::cmp::min(flevel, ghlevel);\n    let tautology", "    let level = std::cmp::min(flevel, glevel);\n    let tautology", M, "fail")
+case("i2-tdd-recursion-mixed", TDA, "apply_ite_rec(manager, f1, g1, h1)?", "apply_ite_rec(manager, f1, g1, h2)?", M, "fail")
+case("i2-harmless-rewrite", ZA, "    if g == h {\n        return Ok(manager.clone_edge(&g));\n    }\n    if f == g {\n        return apply_union(manager, rec, f, h);\n    }",
+     "    // same tests, other spelling\n    if g == h { return Ok(manager.clone_edge(&g)); }\n    if f == g {\n        return apply_union( manager, rec, f, h, );\n    }", M, "ok")
+
+# ---- hook order of both managers ------------------------------------------------------------------------
+M = "OxiddModel.Generated.ObHooks"
+case("hk-pointer-post-reorder-before-resize", PMGR,
+     "        self.unique_table\n            .resize_with(new_len as usize, || Mutex::new(LevelViewSet::default()));\n        self.var_level_map.extend(additional);\n        self.var_name_map.add_unnamed(additional);\n\n        debug_assert_eq!(new_len as usize, self.unique_table.len());\n        debug_assert_eq!(new_len as usize, self.var_level_map.len());\n        debug_assert_eq!(new_len, self.var_name_map.len());\n\n        self.data.post_reorder(self);\n        MD::post_reorder_mut(self);\n",
+     "        self.data.post_reorder(self);\n        MD::post_reorder_mut(self);\n        self.unique_table\n            .resize_with(new_len as usize, || Mutex::new(LevelViewSet::default()));\n        self.var_level_map.extend(additional);\n        self.var_name_map.add_unnamed(additional);\n", M, "fail")
+case("hk-index-reorder-flag-stuck", IMGR, "        MD::post_reorder_mut(self);\n        self.reorder_gc_prepared = false;\n", "        MD::post_reorder_mut(self);\n", M, "fail")
+case("hk-pointer-reorder-no-pregc", PMGR, "        self.data.pre_gc(self);\n        self.reorder_gc_prepared = true;", "        self.reorder_gc_prepared = true;", M, "fail")
+case("hk-index-gc-pregc-unconditional", IMGR, "        if !self.reorder_gc_prepared {\n            self.data.pre_gc(self);\n        }", "        self.data.pre_gc(self);", M, "fail")
+case("hk-index-add-vars-no-mut-hook", IMGR, "        self.data.pre_reorder(self);\n        MD::pre_reorder_mut(self);\n\n        self.unique_table\n            .resize_with(new_len as usize", "        self.data.pre_reorder(self);\n\n        self.unique_table\n            .resize_with(new_len as usize", M, "fail")
+case("hk-harmless-rewrite", PMGR, "        if !self.reorder_gc_prepared {\n            self.data.pre_gc(self);\n        }\n\n        let mut collected = 0;",
+     "        if !self.reorder_gc_prepared { self.data.pre_gc(self); }\n        let started = ();\n        let mut collected = 0;", M, "ok")
 
 
 def run(proj, flt):
